@@ -21,3 +21,19 @@ let () =
       let j a b = path_join [a; b] in
       Printf.printf "M %s ok:%s\n" id (hex_of_bytes (j (bytes_of_hex b1) (j (bytes_of_hex b2) (bytes_of_hex rel))))
     | _ -> failwith "bad fullpath line")
+
+(* symlink <id> <base> <old> <new>: the two names SymlinkIfPossible hands to the source;
+   lname <id> <base> <name>: the name LstatIfPossible / ReadlinkIfPossible hand to the source *)
+let () =
+  Registry.register_line "symlink" (fun toks -> match toks with
+    | [id; base; o; n] ->
+      (match bp_symlink (bytes_of_hex base) (bytes_of_hex o) (bytes_of_hex n) with
+       | Some (a, b) -> Printf.printf "M %s ok:%s:%s\n" id (hex_of_bytes a) (hex_of_bytes b)
+       | None -> Printf.printf "M %s refused\n" id)
+    | _ -> failwith "bad symlink line");
+  Registry.register_line "lname" (fun toks -> match toks with
+    | [id; base; name] ->
+      (match real_path (bytes_of_hex base) (bytes_of_hex name) with
+       | Some p -> Printf.printf "M %s ok:%s:%s\n" id (hex_of_bytes p) (hex_of_bytes p)
+       | None -> Printf.printf "M %s refused\n" id)
+    | _ -> failwith "bad lname line")
